@@ -22,6 +22,8 @@ pub const FILLERS: &[&str] = &[
     // self-closing syntax on elements that are not void (inline SVG, custom elements): one token, no end tag follows
     "<svg:path d=\"M0 0\"/>",
     "<x-foo/>",
+    // the element the selector p.k looks for, written in upper case (tag names are case-insensitive, the class value is not)
+    "<P CLASS=\"k\">T</P>",
     // raw-text elements whose end tag has white space after the name, and the legacy script guard that writes an inner
     // script (escaped / double-escaped script data): what follows them must still be seen as markup
     "<title>t</title\n>",
@@ -159,7 +161,7 @@ impl Filt {
 fn edit_occurrence(f: &Filt, kind: &TargetKind, open: &str, inner: &str, close: &str, inner_fillers: &[usize]) -> String {
     let selector_matches = match f.selector {
         Sel::None | Sel::Empty => None,
-        Sel::PK => Some(inner_fillers.contains(&P_K)),
+        Sel::PK => Some(inner_fillers.contains(&P_K) || inner_fillers.iter().any(|f| FILLERS[*f].starts_with("<P CLASS"))),
         Sel::Nothing | Sel::Unparsable | Sel::UnparsableAttr => Some(false),
     };
     match f.action.as_str() {
